@@ -30,6 +30,7 @@ extern int mpt_output_values(MPT_INTERFACE(output) *out, int len, const double *
 	/* special advance condition */
 	if (ld != 1) {
 		uint8_t buf[256];
+		const uint8_t *pos;
 		ssize_t take;
 		int curr, parts = 0;
 		do {
@@ -42,14 +43,16 @@ extern int mpt_output_values(MPT_INTERFACE(output) *out, int len, const double *
 			/* make (partial) aligned data */
 			mpt_copy64(curr, val, ld, buf, 1);
 			/* push all aligned data */
+			pos = buf;
 			while (take) {
-				if ((ret = out->_vptr->push(out, take, buf)) < 0) {
+				if ((ret = out->_vptr->push(out, take, pos)) < 0) {
 					return ret;
 				}
 				if (ret > take) {
 					return MPT_ERROR(BadValue);
 				}
 				take -= ret;
+				pos += ret;
 			}
 			len -= curr;
 			val += curr * ld;
@@ -57,16 +60,18 @@ extern int mpt_output_values(MPT_INTERFACE(output) *out, int len, const double *
 		} while (len);
 		return parts;
 	} else {
+		const uint8_t *pos = (const uint8_t *) val;
 		size_t total = len * sizeof(*val);
 		
 		while (total) {
-			if ((ret = out->_vptr->push(out, total, val)) < 0) {
+			if ((ret = out->_vptr->push(out, total, pos)) < 0) {
 				return ret;
 			}
 			if ((size_t) ret > total) {
 				return MPT_ERROR(BadValue);
 			}
 			total -= ret;
+			pos += ret;
 		}
 		return 1;
 	}
